@@ -253,7 +253,8 @@ Qed.
 Lemma run_op_shape_inv (f f' : field K) o :
   run_op nrm is0 close0 f o = OK f' -> f_mesh f' = f_mesh f /\ f_nvdim f' = f_nvdim f /\ f_unit f' = f_unit f.
 Proof.
-  destruct o as [s|a|vs]; simpl.
+  destruct o as [s|a|vs|g]; simpl.
+  4: { intros H; injection H as <-; auto. }
   - intros H. destruct (set_norm_ok _ _ _ H) as (ts & _ & ? & ? & ? & _). auto.
   - intros H. destruct (update_values_verbatim _ _ _ H) as (_ & ? & ? & ? & _). auto.
   - unfold set_valid. destruct vs as [|l|].
@@ -282,6 +283,32 @@ Proof.
   unfold update_values in *. rewrite Hm, Hn in Hg.
   destruct (arr_ok (f_mesh f) (f_nvdim f) a); [|discriminate].
   injection Hg as <-. eexists. split; reflexivity.
+Qed.
+
+(* ---------- in-place writes: no stale lengths ---------- *)
+(* after any history followed by an in-place write, the norm getter and orientation are computed from
+   the written array (the model has no cached lengths) *)
+Lemma no_stale_lengths (f f' : field K) os g :
+  run_ops nrm is0 close0 f (os ++ [OWrite g]) = OK f' ->
+  exists f1, run_ops nrm is0 close0 f os = OK f1 /\ f_arr f' = g (f_arr f1) /\
+    f_arr (norm_field nrm f') = map (fun v => [nrm v]) (g (f_arr f1)) /\
+    f_arr (orientation nrm close0 f') = map (fun v => unit_cell close0 (nrm v) v) (g (f_arr f1)) /\
+    f_valid f' = f_valid f1.
+Proof.
+  rewrite run_ops_app. destruct (run_ops nrm is0 close0 f os) as [f1|e]; simpl; [|discriminate].
+  intros H. injection H as <-. exists f1. repeat split.
+Qed.
+
+(* a norm assignment after an in-place write uses the lengths of the written cells *)
+Lemma set_norm_after_write (f f' : field K) os g s :
+  run_ops nrm is0 close0 f (os ++ [OWrite g; OSetNorm s]) = OK f' ->
+  exists f1 ts, run_ops nrm is0 close0 f os = OK f1 /\ spec_values (f_mesh f1) s = OK ts /\
+    f_arr f' = map2 (fun v t => set_cell is0 (nrm v) t v) (g (f_arr f1)) ts.
+Proof.
+  rewrite run_ops_app. destruct (run_ops nrm is0 close0 f os) as [f1|e]; simpl; [|discriminate].
+  destruct (set_norm nrm is0 _ s) as [f2|e] eqn:E; simpl; [|discriminate].
+  intros H. injection H as <-. destruct (set_norm_ok _ _ _ E) as (ts & Hts & _ & _ & _ & _ & Ha).
+  exists f1, ts. repeat split; assumption.
 Qed.
 
 (* ---------- constructor order: values, then norm, then validity ---------- *)
